@@ -1149,3 +1149,34 @@ package evaluator
 //@   ensures[C02] string: isStr(v) ==> result1 == nil && result0 == v
 //@   ensures[C02] other: !isStr(v) && result1 == nil ==> isStr(result0)
 //@   ensures[C02 C08] failure: result1 != nil ==> result0 == nil && isType(result1, "*github.com/woodsbury/jmespath/internal/evaluator.stringConversionError")
+
+// ---------------------------------------------------------------------------
+// termination of the recursion over the AST (C09): evaluate descends to the nodes stored in the node it is
+// given; the helpers that evaluate a node for every element of an array or object sit half a step above it.
+// nodeHeight is the height of a node in the finite tree that the AST is (assumption, see the evidence).
+//@ func evaluator.evaluate
+//@   measure 2 * nodeHeight(node)
+//@ func evaluator.arrayMaxBy
+//@   measure 2 * nodeHeight(node) + 1
+//@ func evaluator.arrayMinBy
+//@   measure 2 * nodeHeight(node) + 1
+//@ func evaluator.filter
+//@   measure 2 * nodeHeight(node) + 1
+//@ func evaluator.filterAndProjectArray
+//@   measure 2 * ite(nodeHeight(filter) > nodeHeight(node), nodeHeight(filter), nodeHeight(node)) + 1
+//@ func evaluator.flattenAndProjectArray
+//@   measure 2 * nodeHeight(node) + 1
+//@ func evaluator.mapArray
+//@   measure 2 * nodeHeight(node) + 1
+//@ func evaluator.projectArray
+//@   measure 2 * nodeHeight(node) + 1
+//@ func evaluator.sortArrayBy
+//@   measure 2 * nodeHeight(node) + 1
+//@ func evaluator.groupBy
+//@   measure 2 * nodeHeight(node) + 1
+//@ func evaluator.projectObject
+//@   measure 2 * nodeHeight(node) + 1
+
+// equal descends into the elements of its first argument (a data value is a finite tree: the properties say so)
+//@ func equal
+//@   measure valHeight(x)
